@@ -724,3 +724,5 @@ B("C14", BASE, _OLD_IS, "            channel_params = {p: params[p][channel_indi
 _OLD_US = "            channel_states = query_channel_states_and_params(\n                states, channel_state_names, channel_indices\n            )\n\n            states_updated"
 B("C03", BASE, _OLD_US, "            channel_states = query_channel_states_and_params(\n                states, channel_param_names, channel_indices\n            )\n\n            states_updated", "R-C03-rows")
 P("C03", BASE, "            channel_state_names = list(channel.channel_states)\n            channel_state_names += self.membrane_current_names", "            channel_state_names = [*channel.channel_states, *self.membrane_current_names]")
+# the parents of a cell shifted as a whole (root included)
+B("C12", NW, "            [p.at[1:].add(self._cumsum_nbranches[i]) for i, p in enumerate(parents)]", "            [p + self._cumsum_nbranches[i] for i, p in enumerate(parents)]", "R-C12-offsets")
